@@ -185,7 +185,7 @@ def run(ctx):
             singles.append((("ri", I(l), I(l + w), V), 6))
         singles.append((("ri", I(l), I(l), V), 1))
         singles.append((("ri", I(l), I(l - 1), V), 1))
-    for _ in range(ctx.scale(700, 8000)):
+    for _ in range(ctx.scale(500, 8000)):
         l, h = rng.choice(pool), rng.choice(pool)
         singles.append((("ri", I(l), I(h), V), 2))
     bad = [V, ("atom", "foo"), terms.flt(1.5), terms.flt(2.0), terms.mkstring("ab"), ("cmp", "f", [("atom", "x")]), ("atom", "[]"), ("rat", 1, 3)]
@@ -195,7 +195,7 @@ def run(ctx):
     for r in (I(3), ("atom", "foo"), terms.flt(0.5)):
         singles.append((("ri", I(0), I(10), r), 1)); singles.append((("ri", V, I(10), r), 1)); singles.append((("rnd", r), 1))
     singles.append((("ri", ("rat", 2, 1), I(5), V), 3)); singles.append((("ri", I(0), ("rat", 2, 1), V), 3))
-    singles.append((("rnd", V), ctx.scale(400, 5000)))
+    singles.append((("rnd", V), ctx.scale(300, 5000)))
     singles.append((("maybe",), 40))
     seeds_ok = [0, 1, 42, 1 << 63, (1 << 64) - 1, 1 << 64, -1, -(1 << 64) - 5, 1 << 200]
     for s in seeds_ok:
@@ -227,7 +227,7 @@ def run(ctx):
         if r < 0.9: return ("maybe",)
         if r < 0.95: return ("ri", rng.choice(bad), I(5), V)
         return ("ri", I(3), I(3), V)
-    nseq = ctx.scale(140, 1500)
+    nseq = ctx.scale(100, 1500)
     seqs = []
     for n in range(nseq):
         s = rng.choice(seeds_ok)
